@@ -195,7 +195,7 @@ class DeprecatedOptions:
             return f'{prefix}{dep_name}="{_escape(val)}"\n'
 
         elif sym.orig_type == HEX:
-            if not val.startswith(("0x", "0X")):
+            if val and not val.startswith(("0x", "0X")):  # (an option without a value stays without one)
                 val = "0x" + val
             return f"{prefix}{dep_name}={val}\n"
 
